@@ -232,6 +232,24 @@ var c11Families = []c11Family{
 		state0: func(par int) int64 { return 0 },
 	},
 	{
+		name: "builtins-misc",
+		script: func(tag string, par int) string {
+			return fmt.Sprintf("r = reverse(sort(Items)); k = keys({\"b\": B, \"a\": A, \"c\": C}); m = max(A, B) - min(A, B); s = string(m) + type(r) + string(len(k)) + string(between(B, 0, 2)); f = float(A) + int(\"%d\"); return len(s) + len(r) + m + int(f) > %d && lower(upper(S)) == lower(S);", par%5, 12+par%8)
+		},
+		init: func(e *evalfilter.Eval, par int) {},
+		step: func(s int64, o *Obj, par int) (int64, bool, []int64) {
+			mx, mn := o.A, o.B
+			if o.B > mx {
+				mx, mn = o.B, o.A
+			}
+			m := mx - mn
+			str := fmt.Sprint(m) + "array" + "3" + fmt.Sprint(o.B >= 0 && o.B <= 2)
+			f := o.A + par%5
+			return s, len(str)+len(o.Items)+m+f > 12+par%8 && strings.ToLower(strings.ToUpper(o.S)) == strings.ToLower(o.S), nil
+		},
+		state0: func(par int) int64 { return 0 },
+	},
+	{
 		name: "builtins-time",
 		script: func(tag string, par int) string {
 			return fmt.Sprintf("t = 1700000000 + A * 3600 + B * 86400; return hour(t) + day(t) + month(t) + minute(t) > %d || weekday(t) == \"Monday\" || year(t) < 2000;", 30+par%10)
